@@ -459,7 +459,7 @@ def read_totals(getter):
     return {"prob": out[0], "lik": out[1], "prior": out[2]}
 
 
-def observe(B: Built, iface=None, prev_state=None, pos=None, want_inputs=False) -> dict:
+def observe(B: Built, iface=None, prev_state=None, pos=None, want_inputs=False, jit=False) -> dict:
     """everything the correspondence compares, read through the public API of the real model"""
     import numpy as np
     import liesel.model as lsl
@@ -504,6 +504,12 @@ def observe(B: Built, iface=None, prev_state=None, pos=None, want_inputs=False) 
         if prev_state is not None and pos is not None:
             st2 = iface.update_state(iface_position(B, pos), prev_state)
             reads.append(dict(read_totals(lambda nm: st2[nm].value), how="LieselInterface.update_state(position, previous state)"))
+            if jit:
+                import jax
+                names = ("_model_log_prob", "_model_log_lik", "_model_log_prior")
+                fn = jax.jit(lambda p: {nm: iface.update_state(p, prev_state)[nm].value for nm in names})
+                out = fn(iface_position(B, pos))
+                reads.append(dict(read_totals(lambda nm: out[nm]), how="jax.jit(LieselInterface.update_state)(position)"))
     novar_lp = {}
     for vn, var in m.vars.items():
         if not var.has_dist:
